@@ -15,14 +15,18 @@ import z3
 
 ROOT = os.path.dirname(os.path.dirname(os.path.abspath(__file__)))
 NPROC = int(os.environ.get("VERIF_NPROC", "16"))
+# budgets: VERIF_TIMEOUT_SCALE scales every per-obligation / per-case budget (e.g. 0.05 for a structural dry run of the thorough tier);
+# VERIF_HARD_CAP bounds the wall clock of a single case (seconds).  Exhausted budgets end as 'inconclusive', never as a pass.
+TIMEOUT_SCALE = float(os.environ.get("VERIF_TIMEOUT_SCALE", "1"))
+HARD_CAP = float(os.environ.get("VERIF_HARD_CAP", "3600"))
 
 
 class Case:
     def __init__(self, id, fn, params=None, timeout=30, hard=None, max_paths=64, max_depth=64,
                  expect_paths=None, pin_tries=4, replay=True, sentinel=True, kind="identity", patch=True, crosscheck=True):
         self.id, self.fn, self.params = id, fn, params or {}
-        self.timeout = timeout            # per obligation, seconds
-        self.hard = hard or max(120, timeout * 12)     # wall clock budget of the whole case
+        self.timeout = max(1, timeout * TIMEOUT_SCALE)            # per obligation, seconds
+        self.hard = min(HARD_CAP, max(60, (hard or max(120, timeout * 12)) * TIMEOUT_SCALE))     # wall clock budget of the whole case
         self.max_paths, self.max_depth = max_paths, max_depth
         self.pin_tries = pin_tries
         self.replay = replay
